@@ -91,20 +91,42 @@ Definition recover_cpusets (c : rcfg) (st : rstate) : rstate :=
   let up := to_set (recover_set (round_ainput c 0 (rs_root st))) in
   mkRS up up up (rs_quota st) (rs_qrec st).
 
+(* the pod set may change between rounds: a negative usage stands for "this pod does not exist in
+   this round" (deleted, not yet created): it is not in the informer's pod list, so it contributes
+   neither usage nor a cpuset annotation *)
+Fixpoint present_pods (ps : list rpod) (us : list Z) : list rpod :=
+  match ps with
+  | [] => []
+  | p :: t => if hd 0 us <? 0 then present_pods t (tl us) else p :: present_pods t (tl us)
+  end.
+Fixpoint present_uses (ps : list rpod) (us : list Z) : list Z :=
+  match ps with
+  | [] => []
+  | p :: t => if hd 0 us <? 0 then present_uses t (tl us) else hd 0 us :: present_uses t (tl us)
+  end.
+Definition round_cfg (c : rcfg) (pu : list Z) : rcfg :=
+  mkRC (rc_cap c) (rc_alloc c) (rc_anno c) (rc_thr c) (rc_min c) (rc_static c) (rc_sysexcl c)
+       (rc_procs c) (present_pods (rc_pods c) pu) (rc_hosts c).
+
+(* one round over the pod set [rc_pods c] *)
+Definition rround (c : rcfg) (st : rstate) (mode : Z) (fail : bool) (nodeu : Z) (pu hu : list Z) : rstate :=
+  if mode =? 2 then recover_cpusets c (recover_quota st)
+  else if match rc_pods c with [] => true | _ => fail end then st    (* nothing to go by: nothing is touched *)
+  else
+    let b := budget (round_binput c nodeu pu hu) in
+    if mode =? 1 then
+      recover_cpusets c (mkRS (rs_root st) (rs_pod st) (rs_ctr st)
+                              (quota_new b (rc_cap c) (rs_quota st)) false)
+    else
+      let '(r, p, k) := adjust3 (round_ainput c b (rs_root st)) (rs_root st, rs_pod st, rs_ctr st) in
+      recover_quota (mkRS r p k (rs_quota st) (rs_qrec st)).
+
+(* the plugin keeps nothing about pods between rounds: every round sees only the pods of that round *)
 Definition rstep (c : rcfg) (st : rstate) (op : rop) : rstate :=
   match op with
   | RReset v => mkRS (rs_root st) (rs_pod st) (rs_ctr st) v (rs_qrec st)
   | RRound mode fail nodeu pu hu =>
-      if mode =? 2 then recover_cpusets c (recover_quota st)
-      else if match rc_pods c with [] => true | _ => fail end then st    (* nothing to go by: nothing is touched *)
-      else
-        let b := budget (round_binput c nodeu pu hu) in
-        if mode =? 1 then
-          recover_cpusets c (mkRS (rs_root st) (rs_pod st) (rs_ctr st)
-                                  (quota_new b (rc_cap c) (rs_quota st)) false)
-        else
-          let '(r, p, k) := adjust3 (round_ainput c b (rs_root st)) (rs_root st, rs_pod st, rs_ctr st) in
-          recover_quota (mkRS r p k (rs_quota st) (rs_qrec st))
+      rround (round_cfg c pu) st mode fail nodeu (present_uses (rc_pods c) pu) hu
   end.
 
 Definition robs := (list Z * list Z * list Z * Z)%type.
@@ -173,20 +195,25 @@ Definition eq_obs_cpusets (a b : robs) : bool :=
   let '(r1, p1, k1, _) := a in let '(r2, p2, k2, _) := b in
   eq_listZ r1 r2 && eq_listZ p1 p2 && eq_listZ k1 k2.
 
-(* one step: [prev] the files before, [o] after *)
+(* one round over the pod set [rc_pods c]: [prev] the files before, [o] after *)
+Definition rround_ok (c : rcfg) (prev : robs) (mode : Z) (fail : bool) (nodeu : Z) (pu hu : list Z) (o : robs) : Prop :=
+  if mode =? 2 then
+    (* disabled: whatever is written is clean, the quota is released or untouched *)
+    let '(root, podd, ctr, q) := o in
+    podd = root /\ ctr = root /\ clean_set (round_ainput c 0 []) root /\ (q = snd prev \/ q = -1)
+  else if match rc_pods c with [] => true | _ => fail end then o = prev
+  else
+    let bi := round_binput c nodeu pu hu in
+    exists b, budget_holds bi b /\
+      (if mode =? 1 then quota_round_holds c b prev o else cpuset_round_holds c b prev o).
+
+(* one step; protection, eligibility and the budget are judged against the pods that exist in THAT
+   round only *)
 Definition rstep_ok (c : rcfg) (prev : robs) (op : rop) (o : robs) : Prop :=
   match op with
   | RReset v => o = (fst prev, v)
   | RRound mode fail nodeu pu hu =>
-      if mode =? 2 then
-        (* disabled: whatever is written is clean, the quota is released or untouched *)
-        let '(root, podd, ctr, q) := o in
-        podd = root /\ ctr = root /\ clean_set (round_ainput c 0 []) root /\ (q = snd prev \/ q = -1)
-      else if match rc_pods c with [] => true | _ => fail end then o = prev
-      else
-        let bi := round_binput c nodeu pu hu in
-        exists b, budget_holds bi b /\
-          (if mode =? 1 then quota_round_holds c b prev o else cpuset_round_holds c b prev o)
+      rround_ok (round_cfg c pu) prev mode fail nodeu (present_uses (rc_pods c) pu) hu o
   end.
 
 Definition first_ok (f : Z -> Z) (l : list Z) : Z :=
@@ -195,24 +222,27 @@ Definition first_ok (f : Z -> Z) (l : list Z) : Z :=
   | b :: t => if existsb (fun x => f x =? 0) l then 0 else f b
   end.
 
+Definition rround_code (c : rcfg) (prev : robs) (mode : Z) (fail : bool) (nodeu : Z) (pu hu : list Z) (o : robs) : Z :=
+  let '(root, podd, ctr, q) := o in
+  if mode =? 2 then
+    if negb (eq_listZ podd root && eq_listZ ctr root) then 741
+    else if negb (clean_setb (round_ainput c 0 []) root) then 742
+    else if negb ((q =? snd prev) || (q =? -1)) then 743
+    else 0
+  else if match rc_pods c with [] => true | _ => fail end then
+    (if eq_obs_cpusets o prev && (q =? snd prev) then 0 else 751)
+  else
+    let bi := round_binput c nodeu pu hu in
+    first_ok (fun b => if mode =? 1 then quota_round_code c b prev o else cpuset_round_code c b prev o)
+             (budget_candidates bi).
+
 Definition rstep_code (c : rcfg) (prev : robs) (op : rop) (o : robs) : Z :=
   match op with
   | RReset v =>
       let '(root, podd, ctr, q) := o in
       if negb (eq_obs_cpusets o prev) then 731 else if q =? v then 0 else 732
   | RRound mode fail nodeu pu hu =>
-      let '(root, podd, ctr, q) := o in
-      if mode =? 2 then
-        if negb (eq_listZ podd root && eq_listZ ctr root) then 741
-        else if negb (clean_setb (round_ainput c 0 []) root) then 742
-        else if negb ((q =? snd prev) || (q =? -1)) then 743
-        else 0
-      else if match rc_pods c with [] => true | _ => fail end then
-        (if eq_obs_cpusets o prev && (q =? snd prev) then 0 else 751)
-      else
-        let bi := round_binput c nodeu pu hu in
-        first_ok (fun b => if mode =? 1 then quota_round_code c b prev o else cpuset_round_code c b prev o)
-                 (budget_candidates bi)
+      rround_code (round_cfg c pu) prev mode fail nodeu (present_uses (rc_pods c) pu) hu o
   end.
 
 Fixpoint rhist_holds (c : rcfg) (prev : robs) (ops : list rop) (obs : list robs) : Prop :=
